@@ -123,6 +123,12 @@ class Ctx:
     # ---------- finishing ----------
     def finish(self):
         wall = time.time() - self.t0
+        # safety net: an obligation that came back violated must surface as a VIOLATION even if the check forgot to file it
+        filed = ' '.join(k for k, d, p in self.violations) + ' '.join(k for k, r in self.known_hit)
+        for o in self.obligations:
+            if o['result'] == 'violated' and o['expect'] == 'discharged' and not self.violations and not self.known_hit:
+                self.violation('unfiled:' + re.sub(r'[^A-Za-z0-9_.-]', '_', o['name'])[:60], o['name'] + ': ' + o['detail'])
+                break
         n_ob = len(self.obligations)
         n_dis = sum(1 for o in self.obligations if o['result'] == 'discharged' and o['expect'] == 'discharged')
         n_wit = sum(1 for o in self.obligations if o['expect'] == 'violated' and o['result'] == 'violated')
